@@ -86,7 +86,7 @@ TExec == /\ Ev.ev = "Exec"
                           ELSE pend
                /\ prev' = Ids(V)
                /\ stats' = [stats EXCEPT !.execs = @ + 1, !.tables = @ + 1, !.goroutines = @ + Cardinality(V),
-                                         !.helpers = @ + Cardinality({w \in Watchers(V) : Explained(V, w)}),
+                                         !.helpers = @ + Cardinality(ExplainedSet(V)),
                                          !.parked = @ + Cardinality(new),
                                          !.lib = @ + Cardinality({g \in V : g.cls = "lib" /\ g.id \notin prev})]
          /\ UNCHANGED <<base, driver, done, bad, guard>>
